@@ -54,6 +54,8 @@ HOLDING_ASSUMPTIONS = [
     "held batches are single conversions put into holding by the real ApplyTransactionBlock in earlier committed blocks; multi-transaction batches with a PEG request in the bank era (known legacy findings D8/D15, DESIGN §8) are outside this harness",
     "averaging period reduced to 3 (package variable) so that the averages are those of the last rated block; rates of the executing block are the table rows InsertRates would have written",
 ]
+SYNCBLOCK = {"id": "syncblock-glue", "func": "VerifSyncBlock", "pkg": NODE, "pkgname": "node", "load": ["./node"],
+             "params": {"quick": {}, "thorough": {}}, "must_cover": ["ran"], "max_witness_replays": 8}
 GRADEGLUE = {"id": "grade-glue", "func": "VerifGradeGlue", "pkg": NODE, "pkgname": "node", "load": ["./node"],
              "params": {"quick": {}, "thorough": {}}, "must_cover": ["mining", "staking"], "max_witness_replays": 6}
 TXBLOCK_ASSUMPTIONS = [
@@ -161,6 +163,7 @@ PROPS = {
             {"id": "snapshot-alloc", "func": "VerifSnapshot", "pkg": NODE, "pkgname": "node", "load": ["./node"],
              "params": {"quick": {"both": 3, "extras": 0, "assets": 1, "positive": 1, "fixrates": 1}, "thorough": {"both": 3, "extras": 0, "assets": 1}},
              "must_cover": ["paid", "capped", "uncapped"], "max_witness_replays": 4},
+            SYNCBLOCK,
         ],
         "wall": {"quick": 400, "thorough": 3000},
         "bounds": {"quick": "SnapshotPayouts at the first snapshot heights >= 2.0 and >= 2.0.2: (a) 2 addresses in both snapshots + 1 only-new + 1 only-old, 1 non-PEG asset, symbolic balances in both snapshots, symbolic rates incl. 0; (b) 3 eligible stakers, concrete rates",
@@ -227,7 +230,7 @@ PROPS = {
         "harnesses": [
             {"id": "rewards", "func": "VerifRewards", "pkg": NODE, "pkgname": "node", "load": ["./node"],
              "params": {"quick": {"maxwinners": 3}, "thorough": {"maxwinners": 4}}, "must_cover": ["winners", "no-winners"], "max_witness_replays": 6},
-            GRADEGLUE,
+            GRADEGLUE, SYNCBLOCK,
         ],
         "bounds": {"quick": "ApplyGradedOPRBlock / ApplyGradedSPRBlock with an arbitrary verdict of 0..3 winners (payouts 0..2^58, payout address one of two addresses or unparsable), symbolic height and block time, prior balances symbolic",
                    "thorough": "0..4 winners"},
@@ -239,6 +242,7 @@ PROPS = {
         "harnesses": [
             {"id": "scheduled", "func": "VerifScheduled", "pkg": NODE, "pkgname": "node", "load": ["./node"],
              "params": {"quick": {}, "thorough": {}}, "must_cover": ["dev", "mint", "nullify-mint"], "max_witness_replays": 6},
+            SYNCBLOCK,
         ],
         "bounds": {"quick": "DevelopersPayouts at the first payout heights >= dev activation and >= 2.0.2 (heights are formatted into mock txids, hence concrete) with symbolic prior balances; MintTokensForBalance and NullifyMintedTokens at their heights with symbolic prior/remaining balances", "thorough": "same"},
         "assumptions": ["address/percentage list and mint list are copied into the harness as specification; the code reads devs.go / mint.go",
@@ -251,6 +255,7 @@ PROPS = {
              "params": {"quick": {}, "thorough": {}}, "must_cover": ["both", "opr-only", "spr-only", "no-winners"], "max_witness_replays": 6},
             {"id": "insert-rates", "func": "VerifInsertRates", "pkg": NODE, "pkgname": "node", "load": ["./node"],
              "params": {"quick": {}, "thorough": {}}, "must_cover": ["inserted", "undefined-phase"], "max_witness_replays": 5},
+            SYNCBLOCK,
         ],
         "bounds": {"quick": "GetAssetRates for heights >= 2.0.2 (25 % band), 3 assets, every OPR/SPR rate in [0, 2^50], either winner absent; InsertRates for the three pricing phases (+ undefined), 3 assets, rates < 2^62, issuance from two symbolic holders", "thorough": "same"},
         "assumptions": ["float64 modelled exactly as dyadic rationals; rates < 2^50 so that float64(rate)*1.25 and *0.75 are exact (the engine ends a path as unsupported if a product could need rounding)",
@@ -294,7 +299,7 @@ PROPS = {
     },
     "C08": {
         "asserts": ["C08.", "uncaught-panic"],
-        "harnesses": TXBLOCK_HARNESSES + HOLDING_HARNESSES + [GRADEGLUE] + [
+        "harnesses": TXBLOCK_HARNESSES + HOLDING_HARNESSES + [GRADEGLUE, SYNCBLOCK] + [
             {"id": "snapshot-live", "func": "VerifSnapshot", "pkg": NODE, "pkgname": "node", "load": ["./node"],
              "params": {"quick": {"both": 2, "extras": 1, "assets": 1}, "thorough": {"both": 2, "extras": 1, "assets": 2}},
              "must_cover": ["paid"], "max_witness_replays": 2},
